@@ -1,8 +1,11 @@
 mod c01;
 mod c01_builders;
+mod c01_rows;
 mod c02;
+mod c02_nested;
 mod c03;
 mod c09;
+mod c09_prims;
 mod kernels;
 fn main() {
     let ctx = vcore::Ctx::from_args();
